@@ -114,6 +114,62 @@ CHECKS["C17"] = dict(
     technique="Coq proof (invariants + induction over histories), lockstep differential correspondence on real overlays, Python oracle",
     design="5/C17")
 
+CHECKS["C09"] = dict(
+    text="Coq proof (23 theorems, invariants over all event histories = all loss/duplication/reordering patterns) that a tunnel node "
+         "reclaims every table entry within a bound computed from its settings: a relay route or exit socket present at time t was "
+         "active within max_time_inactive + sweep + remove_tunnel_delay; an originator circuit within max(inactivity bound, creation + "
+         "next_hop_timeout*(tries + hops - 1)) + delay; the sweep rules equal their documented conditions; adjacent destroys schedule "
+         "removal at once and propagate; open exit sockets never leave the table unclosed; creates are refused at the join limit; a relay "
+         "forwards at most max_relay_early - 1 flagged cells per route. Decision rules and constants are regenerated from the source "
+         "every run (tr_reclaim). Tied to real TunnelCommunity nodes by lockstep replay of ~600 (quick) / ~6500 (thorough) node histories "
+         "from scripted teardown / abandonment / loss scenarios under virtual time; an independent oracle checks freshness, emptiness at "
+         "the deadline, closed sockets, join limit and relay_early budget on the implementation.",
+    note="Trusted: Coq kernel; tr_reclaim/tr_expr; harness (instrumentation, state abstraction, timed lossy network, fake transports); "
+         "asyncio under the virtual clock ('timely' assumption, evaluated on every replayed history). Node-level proofs only: the "
+         "path-level composition (all nodes of an h-hop path empty by t+B) is checked by the implementation deadline oracle, not proved. "
+         "Hidden-service branches, DNS destinations and RustEndpoint not modelled. Model follows fixes 6c217ee, 88afc4f.",
+    technique="Coq invariant proof (bounded liveness as a safety invariant) + AST-translated rules + lockstep correspondence under virtual time",
+    design="5/C09")
+CHECKS["C10"] = dict(
+    text="Coq proof over an executable model of RequestCache and its TaskManager timeout tasks (loop-iteration granularity): for every "
+         "population of caches, every delay and every interleaving of add / pop / retrieve_cache / clear / passthrough / shutdown / clock "
+         "advance / loop iterations / scheduler choices, incl. pops, re-adds and clear issued from on_timeout callbacks, each accepted "
+         "request is resolved at most once; identities are exclusive while outstanding; futures get their configured outcome on timeout; "
+         "shutdown is final; a registered request is resolved within two loop iterations after its deadline (20 theorems). The real "
+         "classes are driven one _run_once at a time on a virtual clock, observed schedules are replayed on the model inside Coq, and an "
+         "independent oracle of the property is evaluated on what the implementation did (exhaustive small-scope event orders + random).",
+    note="Trusted: Coq kernel; hand model M10_reqcache and the harness; the reading of CPython asyncio that a task with a scheduled "
+         "wake-up is still cancellable and one _run_once = one model iteration. Single thread (locks not modelled); on_timeout callbacks "
+         "neither raise nor block; integer delays. Model follows fixes cd5ba9d, ded0d72.",
+    technique="Coq invariant + trace-simulation proof; lockstep trace-inclusion correspondence against the manually stepped asyncio loop",
+    design="5/C10")
+CHECKS["C15"] = dict(
+    text="Coq theorems (23) over a model of the DHT store path with SHA-1, base64 and the signature scheme as Section variables: a store "
+         "is accepted only with a token this node issued to the same address and key within the rotation window and within the size/count "
+         "limits (else state unchanged); stored values are always authentic with bounded lifetimes and unique ids; store-peer is bound to "
+         "the requester's own mid; lookups report (data, key) only if the signature verifies and with the highest version per signer; "
+         "versions never regress under any put sequence; after clean exactly the unexpired values remain. Limits and periods are "
+         "regenerated from the source. Tied to a real DHTDiscoveryCommunity on simnet/vtime by differential runs on generated request "
+         "histories (incl. the node's own timers) evaluated inside Coq, with an independent oracle and shrinking.",
+    note="Trusted: Coq kernel; Section hypotheses (SHA-1 collision-free, unforgeable signatures, distinct os.urandom secrets); "
+         "tr_dht_consts; hand model M15_dht_store; harness (whole-second virtual clock, hand packing). closest_nodes is an observed input "
+         "(C14). Not modelled: per-node rate limit, the crawl, IPv6/multi-interface peers. Model follows fix 3aa386f.",
+    technique="Coq invariant/refinement proofs over an executable model + constants translator + differential correspondence + oracle",
+    design="5/C15")
+CHECKS["C19"] = dict(
+    text="Coq proof (15 theorems) for every store meeting a stated commit/kill contract: every history of processes (open + insert calls, "
+         "each killed at any statement, commit or acknowledgement boundary, incl. inside open and repeatedly) leaves a file that reopens "
+         "without error, contains every acknowledged record unchanged (key-consistent workloads), shows only whole records of started "
+         "calls, equals a prefix of the workload, and rebuilds a pseudonym whose tree verifies (C16). Insert functions and schema scripts "
+         "are regenerated from the source (tr_db). Each run SIGKILLs real processes at every such point (plus VM-instruction and timer "
+         "kills in thorough), reopens in a fresh process and compares with the model and with an independent oracle.",
+    note="Trusted: the store contract (SQLite WAL, synchronous=NORMAL vs process kill; power loss out of scope); hand model of "
+         "Database.commit/__enter__/__exit__/open/executescript (shape-checked); tr_db; harness (wrappers, ack log, event-to-instant "
+         "mapping, template-forked children). Upgrade SQL not modelled (single-transaction obligation + kill experiments). "
+         "Model follows fixes 15c664a, 43bd185, b6d8bb2.",
+    technique="Coq proof over an abstract transactional store with generated tables + SIGKILL fault injection with model/oracle comparison",
+    design="5/C19")
+
 NOT_APPLICABLE = {}
 
 
